@@ -694,11 +694,11 @@ def mc_impl(tier, seed):
     rot = seed % 16
     if tier == 'quick':
         insts = [dict(suites.one(2, nothrow=False, maxlen=4, maxcnt=2, kinds=(0, 1, 4)), Profile='impl'),
-                 dict(suites.one(0, nothrow=True, maxlen=3, maxcnt=2, kinds=(3, 5, 7)), Profile='impl')]
+                 dict(suites.one(0, nothrow=True, maxlen=3, maxcnt=2, kinds=(3, 5, 7, 8)), Profile='impl')]
         insts += [dict(suites.two(2, 2, maxlen=2, maxcap=4, **suites.traits_mc(*suites.ALL_TRAITS[(rot + 7 * i) % 16])), Profile='impl2', NothrowMove=False)
                   for i in range(2)]
     else:
-        insts = [dict(suites.one(N, nothrow=nt, copyable=cp, maxlen=5, maxcnt=3, kinds=((0, 1, 3, 4, 5, 7) if cp else (5, 7))), Profile='impl')
+        insts = [dict(suites.one(N, nothrow=nt, copyable=cp, maxlen=5, maxcnt=3, kinds=((0, 1, 3, 4, 5, 7, 8) if cp else (5, 7, 8))), Profile='impl')
                  for N in (0, 2, 3) for (nt, cp) in ((True, True), (False, True), (False, False), (True, False))]
         insts += [dict(suites.one(2, nothrow=False, maxlen=4, maxcnt=2, kinds=(0, 1, 4)), Profile='impl', Pairs=True),
                   dict(suites.two(2, 2, maxlen=2, maxcap=4, **suites.traits_mc(0, 0, 0, 0)), Profile='impl2', NothrowMove=False, Pairs=True)]
